@@ -85,6 +85,12 @@ prop("C11", True, "model_checking",
      "Trusted: the reference interpreter (key tables, conversions, limits, clamps, precedence); Rust std's number grammar; value classes limited to the menus.",
      "DESIGN.md 3/C11", E1)
 
+prop("C14", True, "model_checking",
+     "exhaustive field-wise enumeration of hit-object lines (all type x sound bytes, field deviations, all path token strings up to a length, node lists) against an independent reference parser",
+     "Every generated line is fed to the real line parser on a fresh state after each of 13 context line lists (previous object none/circle/spinner/slider/hold, mixed-flag type bytes, rejected lines) and the raw object is compared with a reference parser of the legacy grammar on acceptance and on every field.",
+     "Trusted: the 200-line reference parser; Rust std's number grammar; field values limited to the menus.",
+     "DESIGN.md 3/C14", E1)
+
 NOT_BUILT_REASON = "check not built yet in this session (planned, see DESIGN.md section 3); not claimed until it exists"
 
 def main():
